@@ -886,3 +886,86 @@ func methodUnit(w *World, fn *ssa.Function) []*ssa.Function {
 	add(fn, 0)
 	return out
 }
+
+// joinTimeResolution (C10): members are numbered in join order, and two members with the same join time are ordered by
+// whatever the map iteration gives — differently from round to round. Every join time the library creates is therefore
+// the clock's finest reading: each value stored into a field named ClusterJoinTime (identity, instance document,
+// service record, the membership's own copy) is time.Now().UnixNano() or a copy of another join time (a parameter, a
+// field, the registration's `now`) — never a coarser or derived number.
+func joinTimeResolution(c *Ctx, id string) {
+	w := c.W
+	n, created := 0, 0
+	var bad []string
+	for _, fn := range w.ModFuncs {
+		allInstrs(fn, func(in ssa.Instruction) {
+			st, ok := in.(*ssa.Store)
+			if !ok {
+				return
+			}
+			f := fieldOfAddr(st.Addr)
+			if f == nil || !strings.EqualFold(f.Name(), "clusterJoinTime") {
+				return
+			}
+			n++
+			o := w.Origin(st.Val)
+			switch {
+			case strings.Contains(o, "(time.Time).UnixNano)(call(time.Now)())"):
+				created++
+			case strings.HasPrefix(o, "param("), strings.HasSuffix(strings.ToLower(o), "clusterjointime"):
+				// handed on
+			default:
+				bad = append(bad, fmt.Sprintf("%s ← %s @%s", f.Name(), o, w.pos(in.Pos())))
+			}
+		})
+	}
+	c.Check(len(bad) == 0 && created >= 2 && n >= 4, id, "join-time", 0, fmt.Sprintf("%d join-time stores: %d clock readings in nanoseconds, the rest copies", n, created), "a join time is not the nanosecond clock reading or a copy of one: "+strings.Join(bad, "; ")+" — members that start close together tie and swap numbers from round to round")
+}
+
+// publishSynchronous (C09/C10/C11): announcements reach the listeners in the order they were made: every Publish on
+// the membership topic is a plain call — never `go bus.Publish(…)` or a deferred one. (The bus delivers to
+// transactional listeners one at a time, but two publishing goroutines race for that lock.)
+func publishSynchronous(c *Ctx, id string) {
+	w := c.W
+	n := 0
+	var bad []string
+	for _, fn := range w.ModFuncs {
+		allInstrs(fn, func(in ssa.Instruction) {
+			cc := callOf(in)
+			if cc == nil || !cc.IsInvoke() || cc.Method.Name() != "Publish" || len(cc.Args) < 1 {
+				return
+			}
+			if !strings.Contains(w.Origin(cc.Args[0]), "membershipChanged") && !strings.Contains(w.Origin(cc.Args[0]), "MembershipChangedBusEventName") {
+				return
+			}
+			n++
+			if _, plain := in.(*ssa.Call); !plain {
+				bad = append(bad, fmt.Sprintf("%T in %s @%s", in, fname(fn), w.pos(in.Pos())))
+			}
+			// a plain call inside a function that is itself only started with `go`
+			if r := rootFn(fn); fn != r && fn.Parent() != nil {
+				for _, u := range w.usesAsValue(fn) {
+					if _, isGo := u.(*ssa.Go); isGo {
+						bad = append(bad, "published from a goroutine body in "+fname(r)+" @"+w.pos(in.Pos()))
+					}
+				}
+			}
+		})
+	}
+	c.Check(n >= 3 && len(bad) == 0, id, "publish-synchronous", 0, fmt.Sprintf("%d membership publishes, all plain calls", n), "a membership announcement is published asynchronously: "+strings.Join(bad, "; ")+" — two announcements can be applied in reverse order and the older one stays in effect")
+}
+
+// leaderStopLeavesRegistry (C13/C10): stopping the election closes the elector and the RPC server and does nothing to
+// the follower registry or the leader record — the heart-beat loop may be in the middle of a round over them.
+func leaderStopLeavesRegistry(c *Ctx, id string) {
+	w := c.W
+	stop := w.Method("stream", "leaderElection", "Stop")
+	c.need(stop != nil, id, "leaderElection.Stop")
+	c.see(stop)
+	recv := stop.Params[0].Name()
+	c.oae(id, "role:Stop", stop.Pos(), &Harness{Fn: stop, Quiet: quietLog}, func(st *State, out *Outcome) string {
+		if es := out.Effects(recv + ".serviceDiscovery."); len(es) != 0 {
+			return "Stop changes the registry while its loops may still run: " + out.TraceString()
+		}
+		return ""
+	}, "no call on the service discovery")
+}
